@@ -59,7 +59,13 @@ dofailed(struct connect_cookie * C)
 	C->sas++;
 
 	/* Try other addresses until we run out of options. */
-	return (tryconnect(C));
+	if (tryconnect(C)) {
+		/* Fatal error: tell the upstream callback (C->s is -1). */
+		return (docallback(C));
+	}
+
+	/* Success! */
+	return (0);
 }
 
 /* Callback when connect(2) succeeds or fails. */
@@ -92,10 +98,10 @@ callback_connect(void * cookie)
 err1:
 	if (close(C->s))
 		warnp("close");
-	free(C);
+	C->s = -1;
 
-	/* Fatal error! */
-	return (-1);
+	/* Fatal error: tell the upstream callback. */
+	return (docallback(C));
 }
 
 /* Callback when a timer expires. */
@@ -114,7 +120,7 @@ callback_timeo(void * cookie)
 	return (dofailed(C));
 }
 
-/* Try to launch a connection.  Free the cookie on fatal errors. */
+/* Try to launch a connection.  On fatal errors, leave no socket or timer. */
 static int
 tryconnect(struct connect_cookie * C)
 {
@@ -157,12 +163,14 @@ failed:
 	return (0);
 
 err2:
-	if (C->cookie_timeo != NULL)
+	if (C->cookie_timeo != NULL) {
 		events_timer_cancel(C->cookie_timeo);
+		C->cookie_timeo = NULL;
+	}
 err1:
 	if ((C->s != -1) && close(C->s))
 		warnp("close");
-	free(C);
+	C->s = -1;
 
 	/* Fatal error. */
 	return (-1);
@@ -209,11 +217,13 @@ network_connect_internal(struct sock_addr * const * sas,
 
 	/* Try to connect to the first address. */
 	if (tryconnect(C))
-		goto err0;
+		goto err1;
 
 	/* Success! */
 	return (C);
 
+err1:
+	free(C);
 err0:
 	/* Failure! */
 	return (NULL);
